@@ -224,7 +224,7 @@ func c07SemCapacity(c *Check, a *Anchors) {
 		nilGuard := false
 		if len(fb.Body.List) > 0 {
 			if ifs, isIf := fb.Body.List[0].(*ast.IfStmt); isIf {
-				if be, isBin := ast.Unparen(ifs.Cond).(*ast.BinaryExpr); isBin && be.Op == token.EQL && a.isSem(info, be.X) && isNilLit(info, be.Y) {
+				if a.isSemNilTest(info, ifs.Cond, 1) {
 					nilGuard = len(returnsOf(ifs.Body)) == 1
 				}
 			}
@@ -253,13 +253,8 @@ func c07RecursionGated(c *Check, a *Anchors) {
 			ast.Inspect(ifs.Cond, func(nd ast.Node) bool {
 				switch x := nd.(type) {
 				case *ast.CallExpr:
-					if fn, ok := callee(info, x).(*types.Func); ok && fn.Pkg() != nil && fn.Pkg().Path() == "sync/atomic" && strings.HasPrefix(fn.Name(), "Add") {
-						ast.Inspect(x, func(m ast.Node) bool {
-							if sel, ok := m.(*ast.SelectorExpr); ok && fieldSel(info, sel, PkgTask, "Executor", "taskCallCount") {
-								hasAdd = true
-							}
-							return true
-						})
+					if isCallCountIncrement(c.P, info, x, 1) {
+						hasAdd = true
 					}
 				case *ast.BinaryExpr:
 					if x.Op == token.GEQ || x.Op == token.GTR {
@@ -355,6 +350,9 @@ func c07RecursionGated(c *Check, a *Anchors) {
 			if sel, ok := nd.(*ast.SelectorExpr); ok && fieldSel(info, sel, PkgTask, "Executor", "taskCallCount") {
 				isCount = true
 			}
+			if call, ok := nd.(*ast.CallExpr); ok && isCallCountIncrement(c.P, info, call, 1) {
+				isCount = true
+			}
 			return true
 		})
 		if !isCount {
@@ -448,4 +446,55 @@ func c07SoleLimiter(c *Check, a *Anchors) {
 			c.Errorf("sole-limiter: errgroup is not imported any more; the rule cannot match anything")
 		}
 	}
+}
+
+// isSemNilTest: the condition is `semaphore == nil`, or a call of a predicate of package task whose body is a single return of such a test.
+func (a *Anchors) isSemNilTest(info *types.Info, cond ast.Expr, depth int) bool {
+	cond = ast.Unparen(cond)
+	if be, ok := cond.(*ast.BinaryExpr); ok && be.Op == token.EQL {
+		return (a.isSem(info, be.X) && isNilLit(info, be.Y)) || (a.isSem(info, be.Y) && isNilLit(info, be.X))
+	}
+	call, ok := cond.(*ast.CallExpr)
+	if !ok || depth <= 0 {
+		return false
+	}
+	fn, _ := callee(info, call).(*types.Func)
+	h := a.P.DeclOf(fn)
+	if h == nil || h.Decl == nil || h.Pkg.PkgPath != PkgTask || len(h.Body.List) != 1 {
+		return false
+	}
+	r, ok := h.Body.List[0].(*ast.ReturnStmt)
+	return ok && len(r.Results) == 1 && a.isSemNilTest(h.Info(), r.Results[0], depth-1)
+}
+
+// isCallCountIncrement: the call atomically increments an element of Executor.taskCallCount — atomic.AddInt32(&/ptr ...), the
+// Add method of a sync/atomic integer type, or a helper of package task whose body is a single return of such a call.
+func isCallCountIncrement(p *Prog, info *types.Info, call *ast.CallExpr, depth int) bool {
+	fn, ok := callee(info, call).(*types.Func)
+	if !ok {
+		return false
+	}
+	if fn.Pkg() != nil && fn.Pkg().Path() == "sync/atomic" && strings.HasPrefix(fn.Name(), "Add") {
+		found := false
+		ast.Inspect(call, func(m ast.Node) bool {
+			if sel, ok := m.(*ast.SelectorExpr); ok && fieldSel(info, sel, PkgTask, "Executor", "taskCallCount") {
+				found = true
+			}
+			return true
+		})
+		return found
+	}
+	if depth <= 0 {
+		return false
+	}
+	h := p.DeclOf(fn)
+	if h == nil || h.Decl == nil || h.Pkg.PkgPath != PkgTask || len(h.Body.List) != 1 {
+		return false
+	}
+	r, ok := h.Body.List[0].(*ast.ReturnStmt)
+	if !ok || len(r.Results) != 1 {
+		return false
+	}
+	inner, ok := ast.Unparen(r.Results[0]).(*ast.CallExpr)
+	return ok && isCallCountIncrement(p, h.Info(), inner, depth-1)
 }
